@@ -152,6 +152,13 @@ inline bg_vec_sz abs_vec(const std::vector<size_t> &v) {
     r.vQ = G_Q < v.size() ? v[G_Q] : 0;
     return r;
 }
+inline bg_vec_u abs_vecu(const std::vector<BaseGraph::VertexIndex> &v) {
+    bg_vec_u r;
+    r.n = v.size();
+    r.vP = G_P < v.size() ? v[G_P] : 0;
+    r.vQ = G_Q < v.size() ? v[G_Q] : 0;
+    return r;
+}
 inline bg_mat_sz abs_vec(const std::vector<std::vector<size_t>> &m) {
     bg_mat_sz r;
     r.n = m.size();
